@@ -10,3 +10,4 @@ import JaxVerif.Properties.C05
 #print axioms JV.C05_source_wrappers
 #print axioms JV.C05_source_pop_whatever
 #print axioms JV.C05_source_storage
+#print axioms JV.C05_source_storage_history
